@@ -963,6 +963,43 @@ def _check_both_before_after_false(idx):
     return _CBBA['v']
 
 
+_SUFFIX_GROWTH = {}
+
+
+def _suffix_growth_ends_in_modifier(idx, chk):
+    """True when the merged extractor's suffix step ("<entity> or after") can hand the parser an entity whose text ENDS in a
+    complete word of after_regex: then the parser's match_end(after_regex, text) succeeds and its suffix-modifier paths are live
+    whatever CheckBothBeforeAfter says.  Decided on the add_mod tabulation of C12 (token strings; xx = entity, oo aa = the
+    suffix phrase, aa also being the after word): today the grown text is cut one character short ('xx oo a'), which keeps
+    those paths dead."""
+    if 'v' not in _SUFFIX_GROWTH:
+        from . import c12
+        cname = 'recognizers_date_time.date_time.base_merged.BaseMergedExtractor'
+        cls = idx.cls(cname)
+        er_cls = idx.cls('recognizers_text.extractor.ExtractResult')
+        consts = idx.cls('recognizers_date_time.date_time.constants.Constants')
+        dt = consts.attrs.get('SYS_DATETIME_DATE') if consts else None
+        if cls is None or not (isinstance(dt, ast.Constant) and isinstance(dt.value, str)):
+            raise AnalysisError('anchor vanished: BaseMergedExtractor / Constants.SYS_DATETIME_DATE')
+        live = False
+        shown = None
+        for tokens in (('X', 'o', 'a'), ('w', 'X', 'o', 'a'), ('X', 'o', 'a', 'w')):
+            source, res = c12.addmod_run(idx, cls, c12.ADDMOD[cname], tokens, (0,), er_cls, dt.value)
+            if res and res[0] == 'raises':
+                raise AnalysisError('add_mod raises on %r: %s' % (source, res[1]))
+            for (_b, _a, text) in res:
+                if text.rstrip().endswith('aa') and len(text) > 2:
+                    live, shown = True, (source, text)
+        _SUFFIX_GROWTH['v'] = live
+        if live:
+            chk.observe('C01.modpair: the merged extractor hands over entities that end in a complete after-word (%r -> %r): the '
+                        'parser\'s suffix-modifier paths are live and are judged' % shown)
+        else:
+            chk.observe('C01.modpair: the suffix step of add_mod never hands over an entity ending in a complete after-word (its '
+                        'growth is one character short), so match_end(after_regex) cannot succeed on it')
+    return _SUFFIX_GROWTH['v']
+
+
 def _modpair_function(out, idx, mod, cls, fn, src, chk, clsname=None):
     facts = symx.facts_from_index(idx, mod, spans.SPAN_CLASSES)
     facts.conditional_match = True
@@ -972,7 +1009,7 @@ def _modpair_function(out, idx, mod, cls, fn, src, chk, clsname=None):
     src_oid = ('var', src)
     s0, l0 = Lin.atom(('fld', src_oid, 'start')), Lin.atom(('fld', src_oid, 'length'))
     seen = {}
-    suffix_mods_dead = _check_both_before_after_false(idx)
+    suffix_mods_dead = _check_both_before_after_false(idx) and not _suffix_growth_ends_in_modifier(idx, chk)
 
     def on_check(w, st, oid, flds, node, why):
         if oid == src_oid or why not in ('escape', 'exit', 'append'):
